@@ -230,6 +230,26 @@ def collision():
                 keep = "out" if dominant else "in"
                 b.ka(cs[keep]).upd(cs[keep]).adv(1)
                 out.append(b.tag("collision", "hold0").build())
+    # the remote comes back with another identifier (the outbound FSM object is the same as before): the rule
+    # uses the identifier of the OPEN received on THIS connection
+    for rid1, rid2 in (("10.0.0.9", "10.0.0.1"), ("10.0.0.1", "10.0.0.9"), ("10.0.0.9", "10.0.0.8")):
+        for first_open in DIRS:
+            for how in ("eof-oc", "cease-est"):
+                b = Sb("col-newid-%s-%s-%s-%s" % (rid1, rid2, first_open, how), [peer(idleHold=sec(1))], routerID="10.0.0.5")
+                b.start()
+                c0 = b.dial_ok()
+                b.open(c0, rid=rid1)
+                if how == "eof-oc":
+                    b.rclose(c0)
+                else:
+                    b.ka(c0).notif(c0, 6, 4)
+                b.adv(1)
+                cs = {"out": b.dial_ok(), "in": b.connect()}
+                for d in ((first_open,) + tuple(x for x in DIRS if x != first_open)):
+                    b.open(cs[d], rid=rid2)
+                keep = "out" if ip4("10.0.0.5") > ip4(rid2) else "in"
+                b.ka(cs[keep]).upd(cs[keep]).adv(1)
+                out.append(b.tag("collision", "newid").build())
     # established first: KEEPALIVE on the first connection before the second OPEN
     for rn, lid, rid, las, ras in rel[:2]:
         for first in DIRS:
